@@ -406,6 +406,50 @@ func c13Run(srv *svc.Server, sc c13Scenario, r *core.Rand) (viol [][2]string, in
 		}
 		raw.Close()
 		time.Sleep(300 * time.Millisecond)
+	case "timeout-during-a-steady-upload":
+		// the terminal uploads without a pause (100 heartbeats every 10 ms for 8 s, every reply read at once) while the
+		// application's write callback takes 200 us per frame, so that the writer always has terminal messages waiting; half a
+		// second into it, commands with a short timeout go out and are never answered. Their timeouts reach the writer in the
+		// middle of the traffic: the callers are released then, not when the upload is over.
+		if !joined() {
+			t.Close()
+			return nil, true, false, nil
+		}
+		svc.SlowWrite.Store(t.Phone, 200*time.Microsecond)
+		defer svc.SlowWrite.Delete(t.Phone)
+		drained := make(chan struct{})
+		go func() { // (replies and commands are read and dropped)
+			defer close(drained)
+			for {
+				if _, ok, to := t.Next(30 * time.Second); to || !ok {
+					return
+				}
+			}
+		}()
+		var batch []byte
+		for k := 0; k < 100; k++ {
+			batch = append(batch, t.Frame(0x0002, uint16(10+k), nil)...)
+		}
+		t0 := time.Now()
+		launched := false
+		for time.Since(t0) < 8*time.Second {
+			t.Conn.SetWriteDeadline(time.Now().Add(20 * time.Second))
+			if t.Write(batch) != nil {
+				break
+			}
+			if !launched && time.Since(t0) > 500*time.Millisecond {
+				launched = true
+				launchLim(sc.K, timeout, timeout+slack)
+			}
+			time.Sleep(10 * time.Millisecond)
+		}
+		if !launched {
+			t.Close()
+			return nil, true, false, nil
+		}
+		time.Sleep(300 * time.Millisecond)
+		closeIt()
+		time.Sleep(300 * time.Millisecond)
 	case "serial-reuse-with-a-command-outstanding":
 		// command A (no timeout) is written with platform serial s and never answered; the terminal then sends 65 535
 		// heartbeats, so that the next frame the server writes — command B — carries serial s again; B times out; the terminal
@@ -564,6 +608,7 @@ func c13Long(c *core.Collector, x *Ctx) {
 		{Point: "stalled-reader-then-close", K: 8, TimeoutMs: 100, RST: false, Key: "1900780"},
 		{Point: "stalled-reader-then-close", K: 5, TimeoutMs: 1000, RST: true, Key: "1900781"},
 		{Point: "serial-reuse-with-a-command-outstanding", K: 2, TimeoutMs: 200, RST: false, Key: "1900782"},
+		{Point: "timeout-during-a-steady-upload", K: 2, TimeoutMs: 150, RST: false, Key: "1900783"},
 	} {
 		longWG.Add(1)
 		go func(li int, sc c13Scenario) {
